@@ -4,19 +4,19 @@ import json, subprocess
 BASELINE = json.load(open('/root/.vp/BASELINE.json'))['cmd']
 T = "deterministic simulation with fault injection: seeded swarm runs of the real modules under BaseApp, checked step by step against an exact reference oracle; ddmin-minimised replay traces"
 CHECKS = {
- "C01": ("exact-rational full-table conservation scan + the chain's batch-supply invariant after every tx/BeginBlock/restart, under gas aborts, bank errors, multi-msg txs, stale views, crashes", "5 C01"),
+ "C01": ("exact-rational full-table conservation scan + the chain's batch-supply invariant after every tx/BeginBlock/restart, under gas aborts, bank errors, multi-msg txs (also chained: later messages use what earlier ones created), retries of failed txs, stale views, crashes", "5 C01"),
  "C02": ("ghost ledger of issued amounts per batch vs. stored supply after every step; duplicated/delayed issuing txs, aborts inside issuance loops", "5 C02"),
  "C03": ("frame condition on all balances of all non-signers around every tx and BeginBlock; hostile actors, stale views", "5 C03"),
  "C04": ("monotonicity of retired balances / retired and cancelled supply between all consecutive snapshots incl. failed txs and restarts", "5 C04"),
  "C05": ("bank supply of basket denom == sum of basket balances x 10^precision after every step; put/take/bank-send interleavings with bank faults; registered basket-supply invariant", "5 C05"),
  "C06": ("escrow == sum of open orders per (seller,batch) after every step; order well-formedness; ghost allowed-denom-at-create/update", "5 C06"),
- "C07": ("exact-rational settlement reference for every successful BuyDirect computed from the pre-state", "5 C07"),
+ "C07": ("exact-rational settlement reference for every successful BuyDirect computed from the pre-state (no numeric domain restriction: products beyond 34 digits are judged against the exact values too)", "5 C07"),
  "C08": ("role predicate on pre-state for every accepted message; write frame per message type; seal monotonicity; moving roles, stale views, hostile actors", "5 C08"),
  "C09": ("genesis restart as a fault: export, validate, import into empty chain, re-export, compare, invariants; run continues on the imported chain", "5 C09"),
  "C10": ("three executions per trace with different crash/restart/torn-commit schedules; app hash, results, events, gas equal; raw KV equality around failed txs", "5 C10"),
  "C11": ("admission predicate, oldest-first drain order and auto-retire recomputed from pre-state; clock/batch-date/criterion boundary targeting; faults-stopped liveness probes", "5 C11"),
  "C12": ("post-BeginBlock table check under recover(); clock targeting on/around expirations, long halts, several expiries per block", "5 C12"),
- "C13": ("ghost set of consumed origin txs and contract bindings; duplicated/replayed bridge messages across entry points and classes", "5 C13"),
+ "C13": ("ghost set of consumed origin txs and contract bindings (also folded by letter case with the oracle's own ASCII fold); duplicated/replayed bridge messages across entry points and classes; letter-case and unicode-lookalike spellings of chain names and contract addresses", "5 C13"),
  "C14": ("ghost sequence counters, repo validators/parsers on every minted id, referential scan after every step; gas-aborted creations; seeded genesis sequences", "5 C14"),
  "C15": ("stateful corollary only: content-hash -> IRI ghost map injective over histories; query round trips", "5 C15, 6"),
  "C16": ("append-only reference model of the five data tables; weak ID hashers forcing collision chains (hook)", "5 C16"),
